@@ -59,7 +59,7 @@ Record gpt_layout := {
   gl_disk_guid : list N;
   gl_table_crc : N;
   gl_backup_lba : N; gl_first_usable : N; gl_last_usable : N;
-  gl_pmbr : option N;                (* protective MBR in sector 0 (size field), or zeros *)
+  gl_sector0 : list N;               (* the first 512 bytes: anything (zeros, protective or hybrid MBR) *)
   gl_tail : N }.
 
 Inductive dlayout := MBRLayout (l : mbr_layout) | GPTLayout (l : gpt_layout).
@@ -245,16 +245,17 @@ Definition entries_need (es : list (option gentry)) : N :=
 Definition gpt_image (S : N) (l : gpt_layout) : list N :=
   let ts := table_sectors S l in
   let tend := gl_table_lba l + ts in
-  (match gl_pmbr l with
-   | Some size => boot_sector 0 (part_entry PROTECTIVE 1 size) empty_entry empty_entry empty_entry
-   | None => zeros 512
-   end)
+  gl_sector0 l
     ++ fillN (S - 512) 512
     ++ (header_bytes l ++ zeros (S - 92))
     ++ fillN (S * (gl_table_lba l - 2)) (S * 2)
     ++ (concat (map (entry_bytes (esize_of l)) (gl_entries l))
           ++ zeros (S * ts - count_of l * esize_of l))
     ++ fillN (S * ((entries_need (gl_entries l) - tend) + gl_tail l)) (S * tend).
+
+(* the protective MBR: one partition of type 0xEE from LBA 1 *)
+Definition protective_sector (size : N) : list N :=
+  boot_sector 0 (part_entry PROTECTIVE 1 size) empty_entry empty_entry empty_entry.
 
 (* defined partitions: 1-based positions of the used slots *)
 Fixpoint entries_defined (n : N) (es : list (option gentry)) : list (N * gentry) :=
@@ -286,7 +287,7 @@ Definition wf_gpt (l : gpt_layout) : bool :=
   && (length (gl_disk_guid l) =? 16)%nat && bytes_ok (gl_disk_guid l)
   && u32 (gl_table_crc l) && u64 (gl_backup_lba l) && u64 (gl_first_usable l)
   && u64 (gl_last_usable l)
-  && match gl_pmbr l with Some s => u32 s | None => true end.
+  && (length (gl_sector0 l) =? 512)%nat && bytes_ok (gl_sector0 l).
 
 (* ---------------------------------------------------------------- build *)
 Definition build (S : N) (l : dlayout) : list N :=
